@@ -327,6 +327,12 @@ def badcall_jobs(prop, tier, seed):
     return J
 
 
+def block_order_jobs(prop, tier, seed):
+    """blocks returned out of order to the LIFO-only block sources (C05 runs these too)"""
+    rng = random.Random(seed * 1000003 + 1605)
+    return [Job(cfg, BAD[0], BAD[1], block_scenarios(random.Random(rng.random()), tier), "blockorder") for cfg in ("base", "dbg")]
+
+
 def valid_history_jobs(prop, tier, seed):
     """the negative side: valid histories of every stateful allocator in base, dbg and pc (checks on, assertions and fill off); SeqTrace flags
     any invalid-pointer report (C16/ValidReleaseNeverReported) and any crash"""
